@@ -240,7 +240,9 @@ def judge(run: Run, stream, case, before, ctx, out, problems, model):
     if not known:
         for pr in problems:
             run.violation(stream, case, pr)
-        if out.get("err") not in (None, "ValueError", "AmbiguousTreeError", "XPathEvaluationError", "parse"):
+        if out.get("err") == "InvalidOperation" and not case["expr"].startswith("/"):
+            run.violation(stream, case, {"why": "InvalidOperation for a relative path"})
+        if out.get("err") not in (None, "ValueError", "AmbiguousTreeError", "XPathEvaluationError", "parse", "InvalidOperation"):
             run.violation(stream, case, {"why": f"call raised {out['err']}"})
     if model is None or known:
         return
